@@ -43,6 +43,13 @@ CATALOGUE = [
     ("word-out-of-range", ["{I}«.word »200000"], "value-out-of-bounds", "error", ("T",)),
     ("dword-out-of-range", ["{I}«.dword »40000000000"], "value-out-of-bounds", "error", ("T",)),
     ("immediate-out-of-range", ["{I}«mov »#200000, r0"], "value-out-of-bounds", "error", ("T", "T+1")),
+    ("word-too-small", ["{I}«.word 5, »-70000."], "value-out-of-bounds", "error", ("T", "T+1")),
+    ("byte-too-small", ["{I}«.byte 1, »-400"], "value-out-of-bounds", "error", ("T", "T+1")),
+    ("dword-too-small", ["{I}«.dword 1, »-40000000000"], "value-out-of-bounds", "error", ("T", "T+1")),
+    ("word-too-small-bracketed", ["{I}«.word 5, »<-70000.>"], "value-out-of-bounds", "error", ("T",)),
+    ("immediate-too-small", ["{I}«mov #»-200000., r0"], "value-out-of-bounds", "error", ("T", "T+1")),
+    ("immediate-too-small-symbol", ["tsm7 = -200000.", "{I}«mov #»tsm7, r0"], "value-out-of-bounds", "error", ("T",)),
+    ("index-too-small", ["{I}«mov »-70000.(r1), r0"], "value-out-of-bounds", "error", ("T", "T+1")),
     ("emt-out-of-range", ["{I}«emt 400"], "value-out-of-bounds", "error", ("S",)),
     ("spl-out-of-range", ["{I}«spl 10"], "value-out-of-bounds", "error", ("S",)),
     ("mark-out-of-range", ["{I}«mark 100"], "value-out-of-bounds", "error", ("S",)),
@@ -67,6 +74,11 @@ CATALOGUE = [
     ("duplicate-label", ["duplab:", "{I}nop", "{I}«»duplab: nop"], "duplicate-symbol", "error", ("T",)),
     ("duplicate-constant", ["dupcon = 1", "{I}«»dupcon = 2"], "duplicate-symbol", "error", ("T",)),
     ("odd-address", ["{I}.byte 1", "{I}«.word 1", "{I}.even"], "odd-address", "error", ("S",)),
+    ("odd-address-bare-word", ["{I}.byte 1", "{I}«.word", "{I}.even"], "odd-address", "error", ("S",)),
+    ("odd-address-bare-dword", ["{I}.byte 1", "{I}«.dword", "{I}.even"], "odd-address", "error", ("S",)),
+    ("odd-address-dword", ["{I}.byte 1", "{I}«.dword 5", "{I}.even"], "odd-address", "error", ("S",)),
+    ("odd-address-after-string", ["{I}.ascii /abc/", "{I}«.word 2", "{I}.even"], "odd-address", "error", ("S",)),
+    ("odd-address-word-list", ["{I}.byte 1", "{I}«1, 2", "{I}.even"], "odd-address", "error", ("S",)),
     ("unencodable-in-ascii", ["{I}«.ascii »\"a€b\""], "invalid-character", "error", ("S", "T")),
     ("unencodable-char-literal", ["{I}«.word »'€"], "invalid-character", "error", ("T",)),
     ("rad50-foreign-char", ["{I}«.rad50 »\"a!b\""], "invalid-character", "error", ("T",)),
